@@ -44,7 +44,7 @@ pub const STR_VALUES: &[&str] = &[
     "日本", "😀", "a😀b", "\u{FFFF}", "\u{10000}", "e\u{301}", "\u{0}", "\u{A0}1\u{A0}",
     "\u{2028}2\u{3000}", "16", "10", "2", "1e1000", "-1e1000", "9007199254740993",
     "1.0000000000000000000000001", "0.1", "00", "- 1", "1 2", "١",
-    "0x+10", "0x-1", "0b+1", "0o+7", "0x 1", "0x1.8", "0x1p3", "0x1e3", "0x_1", "0X", "0b", "+0x10", "0x10000000000000000",
+    "0x1000000000000081", "0x20000000000001", "0xffffffffffffffffffffffffffffffff", "0x1fffffffffffff8", "0x1fffffffffffffc", "0x+10", "0x-1", "0b+1", "0o+7", "0x 1", "0x1.8", "0x1p3", "0x1e3", "0x_1", "0X", "0b", "+0x10", "0x10000000000000000",
     "0x20000000000000", "0b10000000000000000000000000000000000000000000000000000000000000000", "0o2000000000000000000000", "1e+", "+.5e1", "-.5", "5.e1",
 ];
 
